@@ -16,26 +16,26 @@ package main
 type rstate uint8
 
 const (
-	rStart  rstate = iota // top level, before a value (whitespace allowed, end allowed)
-	rDone                 // single-document mode, after the value: whitespace only
-	rArr0                 // after '[': value or ']'
-	rVal                  // a value is required (after ',' in an array, after ':')
-	rAfter                // after a value inside a container: ',' or the matching close
-	rKey0                 // after '{': '"' or '}'
-	rKey                  // after ',' in an object: '"'
-	rColon                // after a key: ':'
-	rStr                  // inside a string
-	rEsc                  // after '\'
-	rU                    // inside \uXXXX, N hex digits seen
-	rNeg                  // after '-'
-	rZero                 // after a leading 0
-	rInt                  // in the integer digits
-	rDot                  // after '.'
-	rFrac                 // in the fraction digits
-	rE                    // after e/E
-	rESign                // after the exponent sign
-	rExp                  // in the exponent digits
-	rLit                  // inside true/false/null, N letters seen
+	rStart rstate = iota // top level, before a value (whitespace allowed, end allowed)
+	rDone                // single-document mode, after the value: whitespace only
+	rArr0                // after '[': value or ']'
+	rVal                 // a value is required (after ',' in an array, after ':')
+	rAfter               // after a value inside a container: ',' or the matching close
+	rKey0                // after '{': '"' or '}'
+	rKey                 // after ',' in an object: '"'
+	rColon               // after a key: ':'
+	rStr                 // inside a string
+	rEsc                 // after '\'
+	rU                   // inside \uXXXX, N hex digits seen
+	rNeg                 // after '-'
+	rZero                // after a leading 0
+	rInt                 // in the integer digits
+	rDot                 // after '.'
+	rFrac                // in the fraction digits
+	rE                   // after e/E
+	rESign               // after the exponent sign
+	rExp                 // in the exponent digits
+	rLit                 // inside true/false/null, N letters seen
 	rDead
 )
 
